@@ -427,12 +427,17 @@ def _make_fields_iterator(
     # If that didn't work, look for `__slots__` - every class in the hierarchy
     #   declares its own, and a single slot may be spelled as a plain string.
     if not public_attribs and hasattr(tp, "__slots__"):
-        public_attribs = [
-            s
-            for c in reversed(tp.__mro__)
-            for s in _slotnames(c)
-            if not s.startswith("_")
-        ]
+        # (A subclass may declare a slot of its base again: it is still one field.)
+        public_attribs = list(
+            dict.fromkeys(
+                [
+                    s
+                    for c in reversed(tp.__mro__)
+                    for s in _slotnames(c)
+                    if not s.startswith("_")
+                ]
+            )
+        )
     # If we located all public attributes, create a factory function for iterating over
     #   these fields and fetching the value from an instance.
     if public_attribs:
